@@ -217,6 +217,9 @@ def shrink_case(tag, ops, still_bad, max_rounds=200):
         while i < len(ops) and rounds < max_rounds:
             cand = ops[:i] + ops[i + n:]
             rounds += 1
+            if any(x.startswith(("MODE", "SEED")) for x in ops[i:i + n]):
+                i += n            # the preamble stays
+                continue
             if cand and still_bad(cand):
                 ops, changed = cand, True
             else:
